@@ -168,6 +168,84 @@ func TestC12(t *testing.T) {
 			}
 			yield(vt.Case{"runs": runs, "ops": ops, "mode": "id"})
 		}
+		// long lists around the 64 KiB chunks of the streamed codec: incompressible regions (random
+		// differences, 2..5-byte varints -> uncompressed snappy chunks), compressible regions (constant
+		// difference -> compressed chunks), total varint stream of 1..4 chunks +- a little, the stream
+		// shifted by 0..4 one-byte entries so that varints straddle the chunk ends in every alignment
+		const chunk = 65536
+		widthRange := map[int][2]int64{2: {128, 1<<14 - 1}, 3: {1 << 14, 1<<21 - 1}, 4: {1 << 21, 1<<28 - 1}, 5: {1 << 28, 1<<35 - 1}}
+		for i := 0; i < vt.Pick(20, 240); i++ {
+			shift := i % 5
+			nchunks := 1 + (i/5)%4
+			target := nchunks*chunk + []int{-3, 0, 2, 40, 4000, chunk / 2}[rnd.Intn(6)]
+			segs := []any{}
+			if shift > 0 {
+				segs = append(segs, map[string]any{"k": "arith", "n": shift, "step": 1 + rnd.Intn(100)})
+			}
+			bytes := shift
+			pattern := rnd.Intn(4) // 0: all random; 1: random then compressible; 2: compressible then random; 3: alternating
+			for sgi := 0; bytes < target; sgi++ {
+				random := pattern == 0 || (pattern == 1 && bytes < chunk) || (pattern == 2 && bytes >= chunk/2+rnd.Intn(chunk)) || (pattern == 3 && sgi%2 == 0)
+				want := target - bytes
+				if pattern == 3 || pattern == 2 {
+					if lim := chunk/2 + rnd.Intn(chunk); want > lim {
+						want = lim
+					}
+				}
+				if random {
+					w := 2 + rnd.Intn(4)
+					if rnd.Intn(3) == 0 { // mixed widths: the range spans two widths
+						w2 := 2 + rnd.Intn(3)
+						n := want/(w2+1) + 1
+						segs = append(segs, map[string]any{"k": "rand", "n": n, "lo": widthRange[w2][0] / 2, "hi": widthRange[w2+1][0] * 2})
+						bytes += n * (w2 + 1) // roughly
+						continue
+					}
+					n := want/w + 1
+					segs = append(segs, map[string]any{"k": "rand", "n": n, "lo": widthRange[w][0], "hi": widthRange[w][1]})
+					bytes += n * w
+				} else {
+					step := []int64{1, 3, 200, 20000}[rnd.Intn(4)]
+					w := c12Width(uint64(step))
+					n := want/w + 1
+					segs = append(segs, map[string]any{"k": "arith", "n": n, "step": step})
+					bytes += n * w
+				}
+			}
+			g := map[string]any{"seed": rnd.Int63n(1 << 30), "segs": segs}
+			list := c12Gen(vt.Map(vt.Normalize(vt.Case{"g": g})["g"]))
+			// element indexes at which a chunk of the varint stream ends
+			var marks []int
+			off := 0
+			prev := uint64(0)
+			for k, v := range list {
+				w := c12Width(v - prev)
+				if (off+w)/chunk > off/chunk {
+					marks = append(marks, k)
+				}
+				off += w
+				prev = v
+			}
+			ops := [][]any{}
+			for j, m := 0, 3+rnd.Intn(8); j < m; j++ {
+				switch {
+				case rnd.Intn(3) == 0 || len(list) == 0:
+					ops = append(ops, []any{"n"})
+				case len(marks) > 0 && rnd.Intn(4) != 0:
+					k := marks[rnd.Intn(len(marks))] + rnd.Intn(5) - 2
+					if k < 0 {
+						k = 0
+					}
+					if k >= len(list) {
+						k = len(list) - 1
+					}
+					ops = append(ops, []any{"s", u(list[k] + uint64(rnd.Intn(3)) - 1)})
+				default:
+					ops = append(ops, []any{"s", u(list[rnd.Intn(len(list))] + uint64(rnd.Intn(2)))})
+				}
+			}
+			yield(vt.Case{"gen": g, "runs": [][]any{}, "ops": ops, "mode": "rank"})
+		}
 	}
 	vt.Run(t, gen, func(vt.Case) string { return "" }, runC12)
 }
@@ -175,6 +253,46 @@ func TestC12(t *testing.T) {
 type c12Op struct {
 	seek bool
 	v    uint64
+}
+
+// c12Gen builds a long list from a compact, replayable description:
+//
+//	{seed, segs: [{k: "rand", n, lo, hi} | {k: "arith", n, step}, ...]}
+//
+// "rand": n values whose differences are uniform in [lo, hi] (seeded) - an incompressible varint
+// stream, stored by the snappy framing as uncompressed chunks; "arith": n values with a constant
+// difference - compressible. Widths: 1 byte below 2^7, 2 below 2^14, 3 below 2^21, 4 below 2^28, 5 below 2^35.
+func c12Gen(g map[string]any) []uint64 {
+	r := rand.New(rand.NewSource(vt.Int64(g["seed"])))
+	var out []uint64
+	cur := uint64(0)
+	for _, sg := range vt.List(g["segs"]) {
+		m := vt.Map(sg)
+		n := vt.Int(m["n"])
+		if vt.Str(m["k"]) == "arith" {
+			step := uint64(vt.Int64(m["step"]))
+			for k := 0; k < n; k++ {
+				cur += step
+				out = append(out, cur)
+			}
+			continue
+		}
+		lo, hi := vt.Int64(m["lo"]), vt.Int64(m["hi"])
+		for k := 0; k < n; k++ {
+			cur += uint64(lo + r.Int63n(hi-lo+1))
+			out = append(out, cur)
+		}
+	}
+	return out
+}
+
+func c12Width(d uint64) int {
+	w := 1
+	for d >= 128 {
+		d >>= 7
+		w++
+	}
+	return w
 }
 
 func c12Parse(c vt.Case) (list []uint64, ops []c12Op, err error) {
@@ -185,7 +303,13 @@ func c12Parse(c vt.Case) (list []uint64, ops []c12Op, err error) {
 		}
 		return v
 	}
+	if g, ok := c["gen"]; ok && g != nil {
+		list = c12Gen(vt.Map(g))
+	}
 	for _, r := range vt.List(c["runs"]) {
+		if c["gen"] != nil {
+			break
+		}
 		rl := vt.List(r)
 		start, step, cnt := pu(rl[0]), pu(rl[1]), vt.Int(rl[2])
 		for k := 0; k < cnt; k++ {
@@ -310,11 +434,19 @@ func runC12(c vt.Case) vt.Event {
 		Out      [][]any   `json:"out"`
 		OpErr    string    `json:"operr"`
 		Panic    string    `json:"panic"`
+		// the same encoded bytes decoded again, after the decodes above are finished: drained with
+		// Next (decoded2) and walked with Seek(At()+1) (seekwalk; only for lists without duplicates)
+		Decoded2  [][]int64 `json:"decoded2"`
+		SeekWalk  [][]int64 `json:"seekwalk"`
+		AgainErr  string    `json:"againerr"`
+		Intact    bool      `json:"intact"` // the encoded bytes are unchanged after all decoding (informational)
 	}
 	results := make([]obs, len(variants))
 	its := make([]index.Postings, len(variants))
 	drains := make([]index.Postings, len(variants))
 	var closers []func()
+	blobs := make([][]byte, len(variants))    // the "cached bytes" of each variant: every decode reads this very slice
+	pristine := make([][]byte, len(variants)) // a copy to tell whether decoding modified them
 	for i, v := range variants {
 		func() {
 			defer func() {
@@ -327,9 +459,11 @@ func runC12(c vt.Case) vt.Event {
 				results[i].EncErr = err.Error()
 				return
 			}
+			blobs[i] = data
+			pristine[i] = append([]byte(nil), data...)
 			for k := 0; k < 2; k++ {
-				cp := append([]byte(nil), data...) // each decoder owns its input
-				p, cl, err := store.VerifDecodePostings(v.codec, cp, v.byHeader, v.nopoo)
+				// both decoders read the same bytes, as two queries hitting one in-memory cache entry do
+				p, cl, err := store.VerifDecodePostings(v.codec, data, v.byHeader, v.nopoo)
 				if err != nil {
 					results[i].DecErr = err.Error()
 					return
@@ -347,6 +481,8 @@ func runC12(c vt.Case) vt.Event {
 	for i := range variants {
 		results[i].Out = [][]any{}
 		results[i].Decoded = [][]int64{}
+		results[i].Decoded2 = [][]int64{}
+		results[i].SeekWalk = [][]int64{}
 	}
 	for _, o := range ops {
 		for i := range variants {
@@ -399,6 +535,70 @@ func runC12(c vt.Case) vt.Event {
 		if cl != nil {
 			cl()
 		}
+	}
+	// decode the same bytes again (a cache entry is read many times)
+	strict := true
+	for k := 1; k < len(list); k++ {
+		strict = strict && list[k] > list[k-1]
+	}
+	ev["strict"] = strict
+	for i, v := range variants {
+		if blobs[i] == nil || results[i].Panic != "" || results[i].DecErr != "" {
+			continue
+		}
+		func() {
+			defer func() {
+				if r := recover(); r != nil {
+					results[i].Panic = "decoding the same bytes again: " + fmt.Sprint(r)
+				}
+			}()
+			p, cl, err := store.VerifDecodePostings(v.codec, blobs[i], v.byHeader, v.nopoo)
+			if err != nil {
+				results[i].AgainErr = err.Error()
+				return
+			}
+			var got []uint64
+			for p.Next() {
+				got = append(got, uint64(p.At()))
+				if len(got) > len(list)+8 {
+					break
+				}
+			}
+			if e := p.Err(); e != nil {
+				results[i].AgainErr = e.Error()
+			}
+			cl()
+			results[i].Decoded2 = c12Runs(ints(got))
+			got = got[:0]
+			if strict {
+				p, cl, err = store.VerifDecodePostings(v.codec, blobs[i], v.byHeader, v.nopoo)
+				if err != nil {
+					results[i].AgainErr = err.Error()
+					return
+				}
+				target := storage.SeriesRef(1) // Seek(0) on a fresh iterator need not move (see PostingsCodec.tla)
+				if len(list) > 0 && list[0] == 0 {
+					// a fresh iterator answers Seek(0) without moving: start with Next
+					if p.Next() {
+						got = append(got, uint64(p.At()))
+						target = p.At() + 1
+					}
+				}
+				for (len(got) == 0 || got[len(got)-1] != ^uint64(0)) && p.Seek(target) {
+					got = append(got, uint64(p.At()))
+					target = p.At() + 1
+					if len(got) > len(list)+8 {
+						break
+					}
+				}
+				if e := p.Err(); e != nil {
+					results[i].AgainErr = e.Error()
+				}
+				cl()
+			}
+			results[i].SeekWalk = c12Runs(ints(got))
+		}()
+		results[i].Intact = string(blobs[i]) == string(pristine[i])
 	}
 	// group identical observations
 	type group struct {
